@@ -271,6 +271,17 @@ example :
     WF t = true ∧ (gen t).params.length = 0 ∧ (specParams t).length = 0 := by
   decide
 
+/-- finding region F_skipWithDef (known_findings.d/C02.json): a field that is left out of generation (`_`-prefixed or
+    `new:"-"`) and carries a `def=` directive is a field "carrying a def= directive that is not a parameter", so the
+    property has it hold the default; the generator drops the field together with its default -/
+theorem C02_F_skipWithDef_witness :
+    let t : Tree := .field { name := "name" } (.field { name := "_retries", skip := true, defv := "3", hasDoc := true } .nil)
+    regionG t = "F_skipWithDef" ∧
+    (gen t).valueAt [] "_retries" = none ∧
+    (∃ l ∈ leavesTop t, l.info.name = "_retries" ∧ specLeaf t l = some (.defx "3")) := by
+  refine ⟨by decide, by decide, ?_⟩
+  exact ⟨⟨[], 0, { name := "_retries", skip := true, defv := "3", hasDoc := true }, false, true⟩, by decide, rfl, by decide⟩
+
 /-- the repaired case (formerly finding region F_nestedSkipShadows): a left-out field of an EMBEDDED struct hides a
     deeper promoted field of the same name for Go's selector rule, and for the generator too: it is no parameter -/
 theorem C02_nestedSkip_fixed :
